@@ -102,12 +102,17 @@ func (env *Env) lookupIdent(name string) (Val, bool) {
 	}
 	// local variables of the current frame (current value)
 	if env.fr != nil && !env.callee {
-		if v, ok := env.localVar(name); ok {
+		if v, ok := env.localVar(name, true); ok {
 			return v, true
 		}
 	}
 	if v, ok := env.params[name]; ok {
 		return v, true
+	}
+	if env.fr != nil && !env.callee {
+		if v, ok := env.localVar(name, false); ok {
+			return v, true
+		}
 	}
 	// package-level names
 	if obj := e.P.lookupObj(name, env.pkg); obj != nil {
@@ -166,7 +171,7 @@ func (e *Engine) constOf(o *types.Const) Val {
 	return Val{}
 }
 
-func (env *Env) localVar(name string) (Val, bool) {
+func (env *Env) localVar(name string, onlyScoped bool) (Val, bool) {
 	fr := env.fr
 	// disambiguation suffix name#k
 	want := 1
@@ -174,6 +179,10 @@ func (env *Env) localVar(name string) (Val, bool) {
 	if i := strings.Index(name, "#"); i > 0 {
 		fmt.Sscanf(name[i+1:], "%d", &want)
 		base = name[:i]
+	}
+	// compiler-introduced variables such as rangeint.iter are written rangeint$iter
+	if strings.Contains(base, "$") {
+		base = strings.ReplaceAll(base, "$", ".")
 	}
 	n := 0
 	var found *ssa.Alloc
@@ -191,8 +200,13 @@ func (env *Env) localVar(name string) (Val, bool) {
 		return Val{}, false
 	}
 	pv, ok := fr.cells[found]
-	if !ok {
+	if !ok && onlyScoped {
 		return Val{}, false
+	}
+	if !ok {
+		// the variable is not yet in scope on this path: its value is arbitrary
+		el := found.Type().(*types.Pointer).Elem()
+		return term(env.e.S.Fresh("unscoped_"+base, env.e.sortOf(el)), el), true
 	}
 	return env.e.loadThrough(env.st, pv), true
 }
@@ -627,7 +641,7 @@ func (env *Env) evalCall(n ECall) Val {
 		if _, ok := v.Typ.Underlying().(*types.Slice); ok {
 			ref = fmt.Sprintf("(sl_ref %s)", ref)
 		}
-		return term(fmt.Sprintf("(> %s %s)", ref, e.initAlloc), tBool)
+		return term(fmt.Sprintf("(> %s %s)", ref, env.old.alloc), tBool)
 	case "unchanged":
 		// unchanged(s): the backing array of slice s is what it was at entry
 		v := env.eval(n.Args[0])
